@@ -363,6 +363,6 @@ func init() {
 			gen.CheckReserved(c.Run, c.Prog, na, freeNameList(c, "G-RESERVED"), true)
 			namingTable(c, na)
 		}
-		c.RunSkeletons(SkelOpts{Rules: []string{"K-RECORD/literal", "G-SCOPE/fresh"}, Env: smallEnv})
+		c.RunSkeletons(SkelOpts{Rules: []string{"K-RECORD/literal", "G-SCOPE/fresh", "G-MOCK/infrastructure-imports-last"}, Env: smallEnv})
 	})
 }
